@@ -140,6 +140,49 @@ static void legacy_tuple_case(int rep) {
   sig(img_hash(w.b));
 }
 
+// ---------------------------------------------------------------- Theta v4 (compressed) images synthesised for every entry width
+// byte0 preLongs (1 exact, 2 estimation) 1 serVer=4 2 type=3 3 entryBits 4 numEntriesBytes 5 flags=0x1A 6-7 seedHash | [u64 theta] |
+// numEntries (LE, numEntriesBytes bytes) | deltas of the ascending entries, entryBits bits each, packed most significant bit first
+static void legacy_theta_v4_width(unsigned bits) {
+  Rng r(0x7E4 + bits);
+  const uint64_t seed = bits % 3 == 0 ? 424242 : DEFAULT_SEED;
+  static const uint32_t counts[] = {1, 2, 7, 8, 9, 16, 23, 300};
+  uint32_t n = counts[bits % 8];
+  if (bits >= 54) n = std::min<uint32_t>(n, bits >= 62 ? 1u : (1u << (62 - bits)));   // keep the sum of deltas below 2^63
+  std::vector<uint64_t> entries; std::string bitsbuf; uint64_t prev = 0, acc = 0; unsigned nacc = 0;
+  Wr body;
+  for (uint32_t i = 0; i < n; ++i) {
+    uint64_t delta = bits == 64 ? 0 : (r.next() >> (64 - bits));
+    if (i == 0) delta |= uint64_t(1) << (bits - 1);      // the first delta uses the full width
+    if (delta == 0) delta = 1;
+    prev += delta; entries.push_back(prev);
+    for (int b = int(bits) - 1; b >= 0; --b) { acc = (acc << 1) | ((delta >> b) & 1); if (++nacc == 8) { body.u8(uint8_t(acc)); acc = 0; nacc = 0; } }
+  }
+  if (nacc) body.u8(uint8_t(acc << (8 - nacc)));
+  const bool est = bits & 1;
+  const uint64_t theta = est ? prev + 1 + r.below(1000) : MAX_THETA;
+  const unsigned neb = n < 256 ? 1 : 2;
+  Wr w; w.u8(est ? 2 : 1).u8(4).u8(3).u8(uint8_t(bits)).u8(uint8_t(neb)).u8(0x1a).u16(ref_seed_hash(seed));
+  if (est) w.u64(theta);
+  for (unsigned i = 0; i < neb; ++i) w.u8(uint8_t(n >> (8 * i)));
+  w.b += body.b;
+  { const Theta d = decode_theta(w.b.data(), w.b.size()); VF_CHECK(d.entries == entries, "harness|synthesised-v4-image-inconsistent", "bits=" + std::to_string(bits)); }
+  for (int path = 0; path < 3; ++path) {
+    const std::string P = path == 0 ? "bytes" : path == 1 ? "stream" : "wrap";
+    const std::string key = "legacy|theta|v4-synthesised-width|" + P + "|";
+    const std::string ctx = "entry_bits=" + std::to_string(bits) + " entries=" + std::to_string(n);
+    try {
+      std::vector<uint64_t> got; uint64_t th; bool emp, ord;
+      if (path == 2) { const auto wv = wrapped_compact_theta_sketch::wrap(w.b.data(), w.b.size(), seed); got = theta_entries(wv); th = wv.get_theta64(); emp = wv.is_empty(); ord = wv.is_ordered(); }
+      else { const compact_theta_sketch s = read_theta(w.b, path == 1, seed); got = theta_entries(s); th = s.get_theta64(); emp = s.is_empty(); ord = s.is_ordered(); }
+      VF_CHECK(got == entries, key + "entries", ctx + " got " + std::to_string(got.size()));
+      VF_CHECK(th == theta && !emp && ord, key + "theta-or-flags", ctx);
+    } catch (const std::exception& e) { checked(); fail(key + "deserialize-threw", ctx + ": " + e.what()); }
+    count("legacy_theta_v4_" + P);
+  }
+  sig(img_hash(w.b));
+}
+
 std::vector<Extra>& extras() {
   static std::vector<Extra> x;
   static bool init = false;
@@ -150,6 +193,7 @@ std::vector<Extra>& extras() {
     static const std::vector<LegacyTheta> lt = legacy_theta_images();
     for (size_t i = 0; i < lt.size(); ++i) x.push_back(Extra{"legacy theta " + lt[i].name, [i]() { legacy_theta_case(lt[i]); }});
     for (int rep = 0; rep < 3; ++rep) x.push_back(Extra{"legacy tuple", [rep]() { legacy_tuple_case(rep); }});
+    for (unsigned bits = 1; bits <= 63; ++bits) x.push_back(Extra{"theta v4 width " + std::to_string(bits), [bits]() { legacy_theta_v4_width(bits); }});
   }
   return x;
 }
